@@ -27,6 +27,9 @@ TerminalNames == {"connect_fail", "disconnected"}
 MaxIc(tr) == LET rs == SelectSeq(tr, LAMBDA r : r.k = "rd" /\ r.what = "data") IN IF rs = <<>> THEN 0 ELSE rs[Len(rs)].ic
 DeliveredItems(tr) == LET sv == Srv(tr) n == MaxIc(tr) IN SubSeq(sv, 1, IF n > Len(sv) THEN Len(sv) ELSE n)
 DeliveredFrames(tr) == SelectSeq(DeliveredItems(tr), LAMBDA r : r.it = "f")
+\* Once the server has sent a Close frame the stream is over as far as RFC 6455 is concerned: what a client
+\* does with frames that follow it is left open (either behaviour is accepted by the monitors that use this).
+UpToClose(fs) == LET c == FirstIdx(fs, LAMBDA f : f.op = OpClose) IN IF c = 0 THEN fs ELSE SubSeq(fs, 1, c)
 CfgOf(tr) == LET cs == SelectSeq(tr, LAMBDA r : r.k = "cfg") IN cs[1]
 MessageEvents(tr) == SelectSeq(tr, LAMBDA r : r.k = "ev" /\ r.name \in MessageEventNames)
 \* position (index in tr) of the first record satisfying P, 0 if none
